@@ -27,3 +27,15 @@ for nk in (0, 1):
     job('scan.iter.u64.seek.k%d' % nk, ['C02'], 'u_db', 'proofs/scan/seek.c', defines=['NODEKIND=%d' % nk], roots={'SEEK': IT + r'seek\('}, stubs=SEEK_STUBS, cut=['SEEK/while_2ebody'], cfgs=(BASE, DEBUG),
         unwind=12, floor=20, timeout=600, replay='replay/seek.cpp', under_contract=['db<uint64_t>::iterator::seek (descent step at a %s)' % ('leaf' if nk == 0 else 'inner node')],
         bounded=None, trusted=['std::stack replaced by a ghost sequence contract', 'ordering consequence of the structural postconditions (two-probe lemma over path consistency and ascending child enumeration) is not mechanised'])
+
+# ---- iterator steps: next / prior / left-most / right-most traversal / first / last (glue over the node enumeration contracts and the ghost stack)
+STEP_STUBS = {k + '?': v for k, v in SEEK_STUBS.items() if k not in ('N_GTE', 'N_LTE', 'N_FIND', 'PUSH4', 'NEXT', 'PRIOR')}
+STEP_STUBS.update({'N_BEGIN?': IMPL + r'begin\(unodb::node_type\)', 'N_LAST?': IMPL + r'last\(unodb::node_type\)'})
+for f, alias, rx, label in (('lmt', 'LMT', r'left_most_traversal\(', 'while_2ebody'), ('rmt', 'RMT', r'right_most_traversal\(', 'while_2ebody'), ('next', 'NEXT', r'next\(\)', 'while_2econd'),
+                            ('prior', 'PRIOR', r'prior\(\)', 'while_2econd'), ('first', 'FIRST', r'first\(\)', None), ('last', 'LAST', r'last\(\)', None)):
+    for nk in (((9, 0, 1) if f in ('lmt', 'rmt') else (0, 1)) if label else (0,)):     # next / prior start at their loop head: no separate entry proof
+        stubs = {k: v for k, v in STEP_STUBS.items() if k != alias + '?'}
+        job('scan.iter.u64.%s.k%d' % (f, nk), ['C02'], 'u_db', 'proofs/scan/step.c', defines=['NODEKIND=%d' % nk, 'FUNC_%s=1' % alias], roots={alias: IT + rx}, stubs=stubs,
+            cut=(['%s/%s' % (alias, label)] if label else []), cfgs=(BASE, DEBUG), unwind=12, floor=3, timeout=300, memsafe=False,
+            under_contract=['db<uint64_t>::iterator::%s (%s)' % (rx.split('\\')[0], 'entry' if nk == 9 else 'step at a leaf' if nk == 0 and label else 'step at an inner node' if label else 'straight-line')],
+            trusted=['std::stack replaced by a ghost sequence contract', 'node enumeration operations by contract (proved in node.db64.*)', 'ordering consequence of the structural postconditions is not mechanised'])
